@@ -67,6 +67,7 @@ const (
 	WirePair    = 0 // SUT sender -> SUT receiver (crossover)
 	WireSUTSend = 1 // SUT sender -> scripted peer
 	WireSUTRecv = 2 // scripted peer -> SUT receiver
+	WireDuplex  = 3 // two SUT transports, both sending and receiving at once (4 tasks, 2 per transport)
 )
 
 const (
@@ -77,11 +78,12 @@ const (
 )
 
 var cutNames = [...]string{"none", "FIN", "RST", "local-close"}
-var wireNames = [...]string{"pair", "sut-sends", "sut-receives"}
+var wireNames = [...]string{"pair", "sut-sends", "sut-receives", "duplex"}
 
 type plan struct {
 	wiring  int
 	lens    []int
+	lens2   []int // duplex: frames of the reverse direction
 	cutKind int
 	cutAt   int // byte offset in the wire stream
 	segMode int // -1 from the choice stream, 0 whole, 1 byte by byte
@@ -135,9 +137,9 @@ func genLen(allowLarge bool) int {
 
 func genPlan(o hx.Opts) *plan {
 	p := &plan{segMode: -1}
-	p.wiring = hx.G(3)
+	p.wiring = hx.G(4)
 	const maxFrames = 6
-	var lens [maxFrames]int
+	var lens, lens2 [maxFrames]int
 	large := 0
 	for i := range lens {
 		lens[i] = genLen(large < 2)
@@ -145,8 +147,15 @@ func genPlan(o hx.Opts) *plan {
 			large++
 		}
 	}
+	for i := range lens2 {
+		lens2[i] = genLen(false)
+	}
 	n := 1 + hx.G(maxFrames)
+	n2 := 1 + hx.G(maxFrames)
 	p.lens = append(p.lens, lens[:n]...)
+	if p.wiring == WireDuplex {
+		p.lens2 = append(p.lens2, lens2[:n2]...)
+	}
 	p.window = [...]int{1 << 20, 1 << 20, 4096, 64, 7}[hx.G(5)]
 	ck, cpos, cfine := hx.F(5), hx.F(1<<16), hx.F(12)
 	switch ck {
@@ -187,6 +196,9 @@ func genPlan(o hx.Opts) *plan {
 		if p.cutKind == cutLocal && p.wiring == WireSUTSend {
 			p.cutKind = cutFIN
 		}
+	}
+	if p.wiring == WireDuplex {
+		p.cutKind = cutNone
 	}
 	return p
 }
@@ -264,7 +276,9 @@ func Run(seed uint64, index int64, o hx.Opts) *hx.Result {
 	var recvs []recvRes
 	var sends []sendRes
 	var wire []byte // bytes the scripted peer received
-	var frames [][]byte
+	var frames, frames2 [][]byte
+	var recvs2 []recvRes
+	var sends2 []sendRes
 	var bad *hx.Violation
 
 	v := w.Run(func() {
@@ -438,6 +452,50 @@ func Run(seed uint64, index int64, o hx.Opts) *hx.Result {
 			rt.Join(peer, -1)
 			ln.Close()
 
+		case WireDuplex:
+			for f, l := range pl.lens2 {
+				frames2 = append(frames2, payload(100+f, l))
+			}
+			var legal2 [][]byte
+			for _, p := range frames2 {
+				if len(p) <= maxLen {
+					legal2 = append(legal2, p)
+				}
+			}
+			a := transport.NewTransport("nbt")
+			b := transport.NewTransport("nbt")
+			if err := a.Connect(net.IP{10, 0, 0, 99}, 139); err != nil {
+				bad = &hx.Violation{Class: "connect", Key: "connect", Msg: err.Error()}
+				return
+			}
+			if err := b.Connect(net.IP{10, 0, 0, 99}, 139); err != nil {
+				bad = &hx.Violation{Class: "connect", Key: "connect", Msg: err.Error()}
+				return
+			}
+			ts := []*rt.Task{
+				rt.GoHarness("a-sender", "", func() {
+					for _, p := range frames {
+						n, err := a.Send(p)
+						sends = append(sends, sendRes{n, err})
+					}
+				}),
+				rt.GoHarness("b-receiver", "", func() { recvs = receiveAll(b, len(legal), false) }),
+				rt.GoHarness("b-sender", "", func() {
+					for _, p := range frames2 {
+						n, err := b.Send(p)
+						sends2 = append(sends2, sendRes{n, err})
+					}
+				}),
+				rt.GoHarness("a-receiver", "", func() { recvs2 = receiveAll(a, len(legal2), false) }),
+			}
+			// receivers first: a sender blocked on a full window is released once the other side is closed
+			rt.Join(ts[1], -1)
+			rt.Join(ts[3], -1)
+			a.Close()
+			b.Close()
+			rt.Join(ts[0], -1)
+			rt.Join(ts[2], -1)
+
 		case WirePair:
 			s := transport.NewTransport("nbt")
 			r := transport.NewTransport("nbt")
@@ -490,13 +548,28 @@ func Run(seed uint64, index int64, o hx.Opts) *hx.Result {
 	}
 	res.NonTrivial = true
 	desc := fmt.Sprintf("wiring=%s frames=%v cut=%s", wireNames[pl.wiring], pl.lens, cutNames[pl.cutKind])
+	if pl.wiring == WireDuplex {
+		desc += fmt.Sprintf(" reverse-frames=%v", pl.lens2)
+	}
 	if pl.cutKind != cutNone {
 		desc += fmt.Sprintf("@%d", pl.cutAt)
 	}
 	desc += fmt.Sprintf(" seg=%d window=%d", pl.segMode, pl.window)
 	res.Sample = map[string]any{"plan": desc, "sends": len(sends), "receives": len(recvs), "wire_bytes_seen_by_peer": len(wire)}
 	if v == nil && bad == nil {
-		bad = oracle(pl, frames, recvs, sends, wire)
+		if pl.wiring == WireDuplex {
+			pp := *pl
+			pp.wiring = WirePair
+			bad = oracle(&pp, frames, recvs, sends, nil)
+			if bad == nil {
+				bad = oracle(&pp, frames2, recvs2, sends2, nil)
+			}
+			if bad != nil {
+				bad.Key = "duplex/" + bad.Key
+			}
+		} else {
+			bad = oracle(pl, frames, recvs, sends, wire)
+		}
 		if bad != nil {
 			bad.Msg = desc + "\n" + bad.Msg
 		}
